@@ -4,7 +4,10 @@
 # then copy patch/meta/demo to /verif/seeded/<ID>/ (no build output).
 set -u
 id=$1; wt=$2; demo=${3:-SEEDED/demo}; extra=${4:-}
-if [ -f "$wt/$demo/src/main.rs" ]; then cmd="cargo run --offline $extra"; else cmd="cargo test --offline $extra"; fi
+if [ -f "$wt/SEEDED/demo.sh" ]; then cmd="sh ../demo.sh"; [ -d "$wt/$demo" ] || mkdir -p "$wt/$demo"
+elif [ -f "$wt/$demo/run.sh" ]; then cmd="sh ./run.sh"
+elif [ -f "$wt/$demo/src/main.rs" ] && [ ! -d "$wt/$demo/tests" ]; then cmd="cargo run --offline $extra"
+else cmd="cargo test --offline $extra"; fi
 export CARGO_NET_OFFLINE=true
 cd "$wt" || exit 2
 echo "== tests with change"
@@ -13,11 +16,15 @@ grep -c "test result: ok" /tmp/x/seed_$id.tests.log; grep -E "test result: FAILE
 echo "== demo with change"
 (cd $demo && timeout 900 $cmd > /tmp/x/seed_$id.demo1.log 2>&1; echo "demo(with) exit $?")
 echo "== demo without change"
-git stash -q
+# (no git stash: the stash list is shared between the worktrees of one repository)
+git diff > /tmp/x/seed_$id.worktree.patch
+git apply -R /tmp/x/seed_$id.worktree.patch || { echo "cannot revert the change"; exit 2; }
 (cd $demo && timeout 900 $cmd > /tmp/x/seed_$id.demo0.log 2>&1; echo "demo(without) exit $?")
-git stash pop -q
+git apply /tmp/x/seed_$id.worktree.patch || echo "cannot re-apply the change"
+
 mkdir -p /verif/seeded/$id
 cp SEEDED/patch.diff SEEDED/meta.json /verif/seeded/$id/ 2>/dev/null
+cp SEEDED/demo.sh /verif/seeded/$id/ 2>/dev/null
 rm -rf /verif/seeded/$id/demo; mkdir -p /verif/seeded/$id/demo
 (cd $demo && tar cf - --exclude=target --exclude=Cargo.lock . ) | (cd /verif/seeded/$id/demo && tar xf -)
 ls /verif/seeded/$id /verif/seeded/$id/demo
